@@ -25,16 +25,27 @@ pub struct POp {
     pub sector: u8,
     pub beyond: bool,
     pub forward: bool,
+    /// the point lies exactly on the ray that separates this sector from the previous one
+    pub on_seam: bool,
 }
 impl POp {
     fn json(&self) -> Value {
-        json!({"face": self.face, "sector": self.sector, "beyond_edge": self.beyond, "dir": if self.forward { "forward" } else { "inverse" }})
+        json!({"face": self.face, "sector": self.sector, "beyond_edge": self.beyond, "on_seam": self.on_seam, "dir": if self.forward { "forward" } else { "inverse" }})
     }
     fn from_json(v: &Value) -> POp {
-        POp { face: v["face"].as_u64().unwrap() as u8, sector: v["sector"].as_u64().unwrap() as u8, beyond: v["beyond_edge"].as_bool().unwrap(), forward: v["dir"] == "forward" }
+        POp { face: v["face"].as_u64().unwrap() as u8, sector: v["sector"].as_u64().unwrap() as u8, beyond: v["beyond_edge"].as_bool().unwrap(), forward: v["dir"] == "forward", on_seam: v["on_seam"].as_bool().unwrap_or(false) }
     }
 }
 fn plane_point(op: POp) -> P2 {
+    if op.on_seam {
+        // sector 0: y is exactly 0.0; other sectors: as close to the ray as cos/sin allow
+        let a = 36.0 * op.sector as f64 * rg::DEG;
+        let k = (a / (72.0 * rg::DEG)).round();
+        let beta = a - k * 72.0 * rg::DEG;
+        let edge = geo::face_inradius() / beta.cos();
+        let r = if op.beyond { 1.04 * edge } else { 0.55 * edge };
+        return if op.sector == 0 { [r, 0.0] } else if op.sector == 5 { [-r, 0.0] } else { [r * a.cos(), r * a.sin()] };
+    }
     let a = (36.0 * op.sector as f64 + 13.0) * rg::DEG;
     let k = (a / (72.0 * rg::DEG)).round();
     let beta = a - k * 72.0 * rg::DEG;
@@ -48,7 +59,8 @@ pub fn all_pops() -> Vec<POp> {
         for sector in 0..10 {
             for beyond in [false, true] {
                 for forward in [false, true] {
-                    v.push(POp { face, sector, beyond, forward });
+                    v.push(POp { face, sector, beyond, forward, on_seam: false });
+                    v.push(POp { face, sector, beyond, forward, on_seam: true });
                 }
             }
         }
@@ -351,14 +363,23 @@ pub fn api_ops() -> Vec<AOp> {
             }
         }
     }
+    // cells whose centre or corners lie exactly on a sector ray of their face (quintants, base cells)
+    for face in [4usize, 9] {
+        let b = crate::refcodec::all_cells(0)[face];
+        ops.push(AOp::Centre(b));
+        for q in crate::refcodec::children(b) {
+            ops.push(AOp::Centre(q));
+            ops.push(AOp::Boundary(q, Some(1)));
+        }
+    }
     // the same point at neighbouring resolutions, and two nearby points at one resolution
     for r in [3, 4, 5] {
         ops.push(AOp::Lookup(12.3, 45.6, r));
         ops.push(AOp::Lookup(12.3001, 45.6, r));
     }
     // direct projection calls on the thread's instance: same face, same sector, beyond the edge
-    let qb = plane_point(POp { face: 3, sector: 4, beyond: true, forward: false });
-    let qi = plane_point(POp { face: 3, sector: 4, beyond: false, forward: false });
+    let qb = plane_point(POp { face: 3, sector: 4, beyond: true, forward: false, on_seam: false });
+    let qi = plane_point(POp { face: 3, sector: 4, beyond: false, forward: false, on_seam: false });
     ops.push(AOp::Inv(3, qb));
     ops.push(AOp::Inv(3, qi));
     ops.push(AOp::Inv(7, qb));
@@ -777,8 +798,8 @@ fn fixed_ids() -> (u64, u64) {
 }
 
 pub fn harness_workers(name: &str) -> Vec<Vec<AOp>> {
-    let qb = plane_point(POp { face: 3, sector: 4, beyond: true, forward: false });
-    let qi = plane_point(POp { face: 3, sector: 4, beyond: false, forward: false });
+    let qb = plane_point(POp { face: 3, sector: 4, beyond: true, forward: false, on_seam: false });
+    let qi = plane_point(POp { face: 3, sector: 4, beyond: false, forward: false, on_seam: false });
     let (seamcell, c5) = fixed_ids();
     match name {
         // two workers, colliding projection ops on the same face / sector / beyond the edge
@@ -872,7 +893,8 @@ pub fn run(tier: &str, verif_dir: &str) -> Report {
                     for s in [sa, sb] {
                         for beyond in [false, true] {
                             for forward in [false, true] {
-                                u.push(POp { face: f, sector: s, beyond, forward });
+                                u.push(POp { face: f, sector: s, beyond, forward, on_seam: false });
+                                u.push(POp { face: f, sector: s, beyond, forward, on_seam: true });
                             }
                         }
                     }
@@ -974,7 +996,7 @@ pub fn run(tier: &str, verif_dir: &str) -> Report {
     rep.set("evaluations", json!(h + bfs_trans as u64 + api_hist.load(Ordering::Relaxed) + sstats.executions));
     rep.set("distinct_nontrivial", json!(nstates as u64 + sstats.with_preemption));
     rep.set("rule", json!(format!(
-        "(a) memo machine: alphabet of 480 projection ops (12 faces x 10 sectors x inside/beyond edge x forward/inverse) on fresh instances; {} histories (all ordered pairs with echo (a,b,a), all triples within a sector class); BFS to closure over the memo-table states of {} two-face x two-sector universes (16 ops each): every result bitwise equal to its cold value and every filled slot canonical in every state; {} API-level histories (all ordered pairs and triples of {} public calls), each in a fresh OS thread; (b) schedules: depth-first exploration of all schedules of real OS threads up to a preemption bound under a baton scheduler at the H3 hook points (memo reads/stores, entry/exit of forward/inverse, first two accesses of each lazy table): {} executions, {} with at least one preemption; monitors: results bitwise equal to the cold reference, instance exclusivity, initialisers at most once, deadlock; states = distinct memo-table states reached",
+        "(a) memo machine: alphabet of 960 projection ops (12 faces x 10 sectors x inside/beyond edge x interior/exactly-on-the-sector-ray x forward/inverse) on fresh instances; {} histories (all ordered pairs with echo (a,b,a), all triples within a sector class); BFS to closure over the memo-table states of {} two-face x two-sector universes (16 ops each): every result bitwise equal to its cold value and every filled slot canonical in every state; {} API-level histories (all ordered pairs and triples of {} public calls), each in a fresh OS thread; (b) schedules: depth-first exploration of all schedules of real OS threads up to a preemption bound under a baton scheduler at the H3 hook points (memo reads/stores, entry/exit of forward/inverse, first two accesses of each lazy table): {} executions, {} with at least one preemption; monitors: results bitwise equal to the cold reference, instance exclusivity, initialisers at most once, deadlock; states = distinct memo-table states reached",
         h, unis.len(), api_hist.load(Ordering::Relaxed), n, sstats.executions, sstats.with_preemption)));
     rep.set("exhaustive", json!(sched_summary.iter().all(|s| s["cap_hit"] == false)));
     rep.set("schedule_harnesses", json!(sched_summary));
